@@ -179,8 +179,9 @@ class Ctx:
         with Lock("lake"):
             rc, o = sh(["lake", "env", "lean", af], cwd=LEAN, timeout=900)
         found = {}
-        for m in re.finditer(r"AUDIT (\S+) axioms=\[(.*?)\]", o):
-            found[m.group(1)] = [a.strip() for a in m.group(2).split(",") if a.strip()]
+        # Lean wraps messages at ~120 columns: match across line breaks
+        for m in re.finditer(r"AUDIT\s+(\S+)\s+axioms=\[(.*?)\]", o, re.S):
+            found[m.group(1)] = [a.strip() for a in m.group(2).replace("\n", " ").split(",") if a.strip()]
         if rc != 0 or not found:
             self.proof["obligations"] += 1
             self.proof["broken"].append({"theorem": module, "why": "audit failed", "log": o[-2000:]})
